@@ -214,6 +214,11 @@ int _yr_compiler_store_string(
       ref);
 }
 
+#ifdef YARA_VERIF
+// Verification hook: initial size of the compiler's arena buffers.
+YR_API size_t yr_verif_initial_arena_size = 1048576;
+#endif
+
 YR_API int yr_compiler_create(YR_COMPILER** compiler)
 {
   int result;
@@ -267,6 +272,11 @@ YR_API int yr_compiler_create(YR_COMPILER** compiler)
     result = yr_hash_table_create(10000, &new_compiler->sz_table);
 
   if (result == ERROR_SUCCESS)
+#ifdef YARA_VERIF
+    result = yr_arena_create(
+        YR_NUM_SECTIONS, yr_verif_initial_arena_size, &new_compiler->arena);
+  if (0)
+#endif
     result = yr_arena_create(YR_NUM_SECTIONS, 1048576, &new_compiler->arena);
 
   if (result == ERROR_SUCCESS)
